@@ -194,18 +194,20 @@ OpImport(id, c, t, ttl) ==
   /\ Cardinality(imported) < MaxImports
   /\ id \notin DOMAIN acc
   /\ (t = XC => ttl = Forever)
-  /\ t \notin NulTopics
   /\ Log([op |-> "import", id |-> id, ctx |-> c, topic |-> t, ttl |-> ttl])
   /\ UNCHANGED <<gcq, clock, k, removed, gone, headKs, eph, lastApp, met, bad>>
-  /\ LET f == [topic |-> t, ctx |-> c, ttl |-> ttl, meta |-> M0, hash |-> M0] IN
-     /\ stream' = Put(stream, id, f)
-     /\ idxT' = idxT \cup {<<c, t, id>>}
-     /\ idxC' = idxC \cup {<<c, id>>}
-     /\ acc' = Put(acc, id, f)
-     /\ contexts' = IF t = XC /\ c = Z THEN contexts \cup {id} ELSE contexts
-  /\ imported' = imported \cup {id}
-  /\ owed' = owed \ {<<c, t>>}
-  /\ evictable' = evictable \cup EvictableNow(G1)
+  /\ IF t \in NulTopics
+     THEN \* rejected by idx_topic_key_from_frame before anything is written
+          UNCHANGED <<stream, idxT, idxC, acc, contexts, imported, owed, evictable>>
+     ELSE LET f == [topic |-> t, ctx |-> c, ttl |-> ttl, meta |-> M0, hash |-> M0] IN
+          /\ stream' = Put(stream, id, f)
+          /\ idxT' = idxT \cup {<<c, t, id>>}
+          /\ idxC' = idxC \cup {<<c, id>>}
+          /\ acc' = Put(acc, id, f)
+          /\ contexts' = IF t = XC /\ c = Z THEN contexts \cup {id} ELSE contexts
+          /\ imported' = imported \cup {id}
+          /\ owed' = owed \ {<<c, t>>}
+          /\ evictable' = evictable \cup EvictableNow(G1)
 
 Finish ==
   /\ ~fin /\ nops = MaxOps /\ fin' = TRUE
